@@ -298,7 +298,7 @@ func TestBytes(t *testing.T) {
 		}
 	}
 	u.Set("seeds", len(byteSeedNames))
-	vk.Rapid(u, vk.N(1600, 60000), regress, drawBytes, check)
+	vk.Rapid(u, vk.N(1200, 20000), regress, drawBytes, check)
 }
 
 // ---- unit fuzz: the seed corpus of the native fuzz target ------------------------------------------
